@@ -1934,4 +1934,9 @@ pub mod verif_hooks {
     pub fn index_total_size<S: IndexedTree>(repo: &Repository<S>, tpe: BlobType) -> u64 {
         repo.index().total_size(tpe)
     }
+    /// `DecryptWriteBackend::save_file` on the repository's backend (serialise, compress, encrypt, store).
+    pub fn save_file<S: Open, F: RepoFile>(repo: &Repository<S>, file: &F) -> RusticResult<crate::Id> {
+        use crate::backend::decrypt::DecryptWriteBackend;
+        repo.dbe().save_file(file)
+    }
 }
